@@ -5,7 +5,7 @@ slow but terminating call is never reported as a hang; once several real hangs h
 this process the limit drops, so that a tree on which many inputs hang does not stall the check."""
 _hangs = 0
 LONG = 60
-SHORT = 6
+SHORT = 20
 
 
 def limit(scale=1):
